@@ -52,7 +52,7 @@ def directed(rng: random.Random, tier: str):
 def run(chk: Check):
     mgr_check.run_property(
         chk, "C07", "Props.C07", THEOREMS,
-        model_profiles={"faults": 260, "ids": 80},
+        model_profiles={"faults": 260, "ids": 80, "nested": 120},
         oracle_flavors={"depart": 220, "drops": 220},
         checkers=CHECKERS,
         extra_histories=directed,
